@@ -112,7 +112,9 @@ class ProbeKernel(ModelMixin, TransitionMixin, TuningMixin):
             cur=jnp.asarray(0, jnp.int32),
             version=jnp.asarray(0, jnp.int32),
         )
-        return self._rec(st, prng_key, 1, None)
+        # (x0: the chain number found in the model state the kernel is initialised from, -7 if the state has none)
+        seen = model_state["chain"] if isinstance(model_state, dict) and "chain" in model_state else -7
+        return self._rec(st, prng_key, 1, None, x0=seen)
 
     def start_epoch(self, prng_key, kernel_state, model_state, epoch):
         return self._rec(kernel_state, prng_key, 2, epoch)
